@@ -16,7 +16,11 @@ def run(ctx):
     # S2: one labelled frame for every opcode-table cell x sub-form (reserved size of every row vs its bytes)
     stmts, wall = asmgen.table(ctx.tier, "valid")
     step = 1 if thorough else 5
-    asmcheck.run_suite(ctx, "cell-frames", [framed(s, "cell") for s in stmts[rnd.randrange(step)::step]])
+    sample = stmts[rnd.randrange(step)::step]
+    # ... and EVERY cell (mnemonic x form x sub-form x indirect x forced mode) at least twice in every run, whatever the sample drew
+    # (an inherent instruction has exactly one statement: a wrong reserved size for it must not depend on the draw)
+    every = asmgen.every_cell(stmts, rnd)
+    asmcheck.run_suite(ctx, "cell-frames", [framed(s, "cell") for s in sample + every])
     # S3: code -> spec, random programs; every statement followed by a labelled one
     n_small, n_long = (60000, 4000) if thorough else (5000, 300)
     cases = []
